@@ -109,7 +109,7 @@ CHECKS = {
         "groups": [
             {"name": "c01", "run": "^TestC01_", "shards": {"quick": 16, "thorough": 16},
              "timeout": {"quick": 900, "thorough": 3000},
-             "checks": ["c01-delivery"]},
+             "checks": ["c01-delivery", "c01-lossy-link", "c01-busy-manager"]},
         ],
     },
     "C02": {
